@@ -120,6 +120,12 @@ func runC19(s *Session, tier string) string {
 			total += int64(len(ex.reqEnc)+len(ex.respEnc)) + 3*4200
 		}
 		s.drawPlan(kind == "rhp2" && t.Chance(2, 3), total/2)
+		if kind == "rhp2" && t.Chance(1, 5) {
+			// the one fault of this session is a flipped bit in the plaintext length
+			// prefix of one of the host's frames (the first write is the handshake reply)
+			s.plan.flipAt, s.plan.cutAt, s.plan.stallAt = -1, -1, -1
+			s.plan.flipDir, s.plan.flipWrite, s.plan.flipWriteOff, s.plan.flipBit = 1, 1+t.Choose(len(exs)), t.Choose(8), t.Choose(8)
+		}
 		runRHP2(s, exs, kind == "rhp2-wrongkey")
 		s.run(20000)
 	case "rhp3", "rhp3-overlimit", "rhp3-wrongkey":
